@@ -232,6 +232,16 @@ def run_case(fa, res, raw, node, defs, d, tier, seen):
             mutated = single[:a] + binary.zigzag(bad) + single[b:]
             res.stats["bad_index_cases"] += 1
             check_bytes(fa, res, (raw, W, R, dict(info, bad_index=bad, at=a, kind=kind)), mutated, None, "bad-index", seen)
+            # reader options do not make a bad index good
+            for opt in ({"return_record_name": True}, {"return_named_type": True}, {"return_record_name": True, "return_record_name_override": True}):
+                res.evals += 1
+                try:
+                    got = fa.schemaless_reader(io.BytesIO(mutated), raw, **opt)
+                except Exception:
+                    continue
+                res.add(Violation("c03.bad-index.read", "bad-index-returned-value:reader-options", f"bad-index encoding {mutated[:80].hex()} ({kind} index {bad}) read with {opt} returned {short(got)} instead of raising | {short(info, 300)}",
+                                  dict(info, bad_index=bad, at=a, kind=kind, buf=mutated, mode="bad-index-options", options=opt)))
+                break
             if EV is not None:
                 res.evals += 1
                 try:
@@ -327,6 +337,33 @@ def run_many_blocks(fa, res):
                         res.add(Violation("c03.valid-layout.skip", "valid-layout-skip-misaligned:many-blocks", f"after skipping a {kind} of {nblocks} one-item blocks ({form}) the next field read as {short(got)}", dict(info, mode="many-blocks")))
                 except Exception as e:
                     res.add(Violation("c03.valid-layout.skip", f"valid-layout-skip-raised:{type(e).__name__}:many-blocks", f"skipping a {kind} of {nblocks} one-item blocks ({form}) raised {type(e).__name__}: {str(e)[:100]}", dict(info, mode="many-blocks")))
+    # very many items that take no bytes at all (null, a field-less record, fixed of size 0): the count says nothing about
+    # how many bytes follow
+    for count in (16384, 16385, 20000, 70000):
+        for item, val in (("null", None), ({"type": "record", "name": "Nothing", "fields": []}, {}), ({"type": "fixed", "name": "Z0", "size": 0}, b"")):
+            for kind in ("array", "map"):
+                if kind == "map" and count > 20000:
+                    continue
+                if kind == "array":
+                    raw = {"type": "array", "items": item}
+                    body = binary.zigzag(count) + b"\x00"
+                    expect = [val] * count
+                else:
+                    raw = {"type": "map", "values": item}
+                    keys_ = [b"k%d" % i for i in range(count)]
+                    body = binary.zigzag(count) + b"".join(binary.zigzag(len(k)) + k for k in keys_) + b"\x00"
+                    expect = {k.decode(): val for k in keys_}
+                info = {"schema": raw, "datum": f"<{count} zero-byte items>", "blocks": 1, "form": "zero-byte-items"}
+                n_cases += 1
+                res.evals += 1
+                for stream in ("bytesio", "buffered"):
+                    fo = io.BytesIO(bytes(body)) if stream == "bytesio" else io.BufferedReader(io.BytesIO(bytes(body)))
+                    try:
+                        got = fa.schemaless_reader(fo, raw)
+                        if got != expect:
+                            res.add(Violation("c03.valid-layout.read", "valid-layout-wrong-value:zero-byte-items", f"{kind} of {count} zero-byte items decoded differently ({stream})", dict(info, mode="many-blocks")))
+                    except Exception as e:
+                        res.add(Violation("c03.valid-layout.read", f"valid-layout-raised:{type(e).__name__}:zero-byte-items", f"{kind} of {count} zero-byte items ({stream}) raised {type(e).__name__}: {str(e)[:100]}", dict(info, mode="many-blocks")))
     # long collections of annotated items (a per-item conversion must not accumulate anything), in one block and in many
     import datetime as _dt
 
@@ -409,6 +446,13 @@ def replay(case):
         try:
             got = fa.schemaless_reader(io.BytesIO(binary.zigzag(KEEP) + case["buf"]), WL, RL)
             res.add(Violation("c03.prefix.skip", "prefix-skip-last-returned-value", f"returned {short(got)}", case))
+        except Exception:
+            pass
+        return res.violations
+    if case["mode"] == "bad-index-options":
+        try:
+            got = fa.schemaless_reader(io.BytesIO(case["buf"]), raw, **case["options"])
+            res.add(Violation("c03.bad-index.read", "bad-index-returned-value:reader-options", f"returned {short(got)}", case))
         except Exception:
             pass
         return res.violations
